@@ -603,6 +603,53 @@ def pooled_job(T, ntraj=2, S=2, nsym=None):
     return path
 
 
+def lagged_job(T, S=2, F=2):
+    """time-lagged mutual information: X and Y are overlapping VIEWS of one buffer (data[:-1], data[1:]), F features each.  The MI
+    matrix must be the MI of the exact joint counts of (X_i, Y_j) for every ordered pair - it is not symmetric in general -
+    and must not depend on whether X and Y share memory."""
+    mi_mod = loader.load('enspara.info_theory.mutual_info')
+
+    def path(ctx):
+        ctx.resolve_masks = True
+        data = [[core.fresh_int('s', 0, S - 1) for _ in range(F)] for _ in range(T)]
+        D = funcs.np_array(data, dtype=np.int32)
+        X, Y = D[:-1], D[1:]
+        exc = None
+        try:
+            mi = mi_mod.mi_matrix([X], [Y], [S] * F, [S] * F, normalize=False)
+            ref = mi_mod.mutual_information(spec_matrix_bincount2d(X.copy(), Y.copy(), S, S).astype(np.int64))
+        except Exception as e:
+            exc = e
+
+        def witness(model):
+            dv = [[int(ev(model, v)) for v in row] for row in data]
+            out = {'inputs': {'frames': dv, 'X': 'frames[:-1]', 'Y': 'frames[1:]'}, 'skip_compare': True, 'out': None}
+            D2 = np.array(dv, dtype=np.int32)
+            with core.concrete_mode():
+                try:
+                    m_views = mi_mod.mi_matrix([D2[:-1]], [D2[1:]], [S] * F, [S] * F, normalize=False)
+                    m_copies = mi_mod.mi_matrix([D2[:-1].copy()], [D2[1:].copy()], [S] * F, [S] * F, normalize=False)
+                    r2 = mi_mod.mutual_information(spec_matrix_bincount2d(D2[:-1].copy(), D2[1:].copy(), S, S).astype(np.int64))
+                except Exception as e:
+                    out.update(exception=repr(e), violated=['raises ' + type(e).__name__], signature='lagged:exception:' + type(e).__name__)
+                    return out
+            out['out'] = {'mi_matrix_on_views': m_views.tolist(), 'mi_matrix_on_copies': m_copies.tolist(), 'mi_of_exact_counts': r2.tolist()}
+            bad = []
+            if not np.allclose(m_views, r2, rtol=1e-9, atol=1e-12):
+                bad.append('time-lagged MI (overlapping views) is not the MI of the exact joint counts')
+            if not np.allclose(m_views, m_copies, rtol=1e-9, atol=1e-12):
+                bad.append('result depends on whether X and Y share memory')
+            out['violated'] = bad
+            out['signature'] = 'lagged:mi-differs-from-exact-counts'
+            return out
+        if exc is not None:
+            return PathOut([('no-exception', False)], {}, witness, exc=type(exc).__name__,
+                           desc='raises %s: %s' % (type(exc).__name__, str(exc)[:100]))
+        obs = [('time-lagged-MI-equals-MI-of-the-exact-joint-counts', conj([feq(x, y) for x, y in zip(cells(mi), cells(ref))]))]
+        return PathOut(obs, {}, witness, desc='time-lagged MI: %d frames x %d features' % (T, F))
+    return path
+
+
 def kl_job(n):
     en = loader.load('enspara.info_theory.entropy')
 
@@ -746,6 +793,9 @@ def jobs(tier):
     add('weighted_mi_job', 'weighted-mi[3 frames,states 2/2]', features=[[0, 0], [1, 1], [0, 1]], n_states=(2, 2))
     add('weighted_mi_job', 'weighted-mi[3 frames,states 2/3, one state never taken]', features=[[0, 0], [1, 2], [0, 2]], n_states=(2, 3))
     add('weighted_mi_job', 'weighted-mi[unnormalised weights]', features=[[0, 1], [1, 0], [1, 1]], n_states=(2, 2), normalized_weights=False)
+    add('lagged_job', 'time-lagged-mi[3 frames x 2 features, overlapping views]', T=3)
+    if not q:
+        add('lagged_job', 'time-lagged-mi[4 frames x 2 features, overlapping views]', T=4)
     add('pooled_job', 'pooled-counts[2 trajectories x 3 frames]', T=3)
     add('pooled_job', 'pooled-counts[2 x 130 frames (2 symbolic each): count tables must not wrap in a narrow dtype]', T=130, nsym=2)
     from harness import kernels
